@@ -83,6 +83,35 @@ CLAIMED = {
              "and refsem. POW and undeclarable names are excluded as the statement says; a clean "
              "NoLogicAvailableError from the script generator is a refusal, not an export.",
         design="§3 C07"),
+    "C08": dict(
+        category="exploration",
+        technique="bounded-exhaustive enumeration of SMT-LIB texts from an independent text grammar (every parser-table "
+                  "entry in every syntactic variant, nested once) plus binder/definition families and malformed variants, "
+                  "each compared with an independent reader under every interpretation",
+        text="~376k texts: every operator, literal notation and indexed identifier of the parser tables applied to leaf "
+             "texts and with one nested argument; ~75 hand-written families (parallel/nested/shadowing let, quantifiers "
+             "shadowing globals, define-fun with parameters shadowing globals or definitions, definitions inside "
+             "definitions, capture, declarations, annotations, comments, quoted symbols, numerals by logic) and ~28 "
+             "malformed variants. Accepted text must evaluate as smtref says under every interpretation; malformed "
+             "variants must raise; well-formed supported text must be accepted.",
+        note="Trusted: mc/core/smtref.py. Valid forms the parser cannot handle today (n-ary -, =>, xor; division by "
+             "the literal zero) may be rejected. Lenient readings that keep the meaning ((bvadd u), re-declaration with "
+             "the same sort) are not in the must-reject list. Four known findings (undeclared symbol as String, three "
+             "capture cases).",
+        design="§3 C08"),
+    "C09": dict(
+        category="exploration",
+        technique="bounded-exhaustive enumeration of formulas (print then parse: object identity) and of all legal "
+                  "command sequences up to length 3-4 (parse, serialise, parse: structural equality), plus HR round trip "
+                  "checked by exhaustive evaluation",
+        text="(i) every term of the profiles incl. awkward names x {tree, DAG}: the script is serialised and parsed "
+             "back in the same environment and must be the very same object; (ii) all legal sequences of length <=3 "
+             "(thorough 4) over 30 command variants and <=2 (3) over 90 variants, with and without a declaration "
+             "prelude: parse(serialize(parse(t))) == parse(t); (iii) HR fragment: HRParser.parse(f.serialize()) has the "
+             "same sort, value under every interpretation and flattened serialisation.",
+        note="Trusted: refsem for the HR meaning check. Commands whose serialisation is not implemented are counted. "
+             "Two known findings (symbol named '(' / ')', quoted sort names).",
+        design="§3 C09"),
     "C10": dict(
         category="exploration",
         technique="bounded-exhaustive enumeration of Boolean skeletons over theory atoms and quantifiers; equivalence by "
@@ -234,7 +263,7 @@ ENGINES = [
          kind_free_text="exhaustive table-driven enumeration over finite operand domains"),
     dict(name="explorer", path="mc/core/explorer.py", serves_properties=["C14", "C15", "C16", "C17"],
          kind_free_text="explicit-state breadth-first search over API histories replayed on fresh real objects in lock-step with a reference model"),
-    dict(name="sweep", path="mc/core/sweep.py", serves_properties=["C01", "C02", "C03", "C05", "C07", "C10", "C11", "C12", "C13"],
+    dict(name="sweep", path="mc/core/sweep.py", serves_properties=["C01", "C02", "C03", "C05", "C07", "C08", "C09", "C10", "C11", "C12", "C13"],
          kind_free_text="sharded bounded-exhaustive term enumeration (termgen) + reference semantics (refsem)"),
 ]
 
